@@ -700,7 +700,14 @@ class Tuple(SerializableBase):
         self._prim_seq: Tuple[SERIALIZABLE_TYPE] = tuple(args)
 
     def calc_size(self):
-        return sum(p.calc_size() for p in self._prim_seq)
+        total_size = 0
+        for p in self._prim_seq:
+            size = p.calc_size()
+            # Any variable-length member makes the whole tuple variable-length
+            if size is None:
+                return None
+            total_size += size
+        return total_size
 
     def serialize(self, vals, writer: BufferWriter, ctx: Optional[ParseContext]):
         ctx = ParseContext(vals, parent=ctx)
